@@ -229,7 +229,7 @@ RPIdx(st) == CHOOSE j \in 1..Len(RPSiteSeq) : RPSiteSeq[j] = st
 RPNativeSites == RPSites \ {"plain", "rterr"}
 RPHandlers == {"inner", "direct", "caller", "native", "under"}
 RPMids == {"none", "finally", "rethrow"}
-RPMany == 130
+RPMany == 110
 RPCounts == {1, 4, RPMany}
 RPI == Var("i")
 \* what the handler adds to the checksum: the number itself, the length of a string, the length of an error's name
@@ -294,8 +294,8 @@ RPValid(c) == /\ RPIdx(c.sa) <= RPIdx(c.sb)                                     
 RPLong(c) == c.n = RPMany
 \* thorough: the full product for n in {1, 4}; for RPMany every pair of sites x placement, and every single site with
 \* every md / hf.  quick: for n = 4 every pair of sites (handler in the caller), every single site at every placement, with
-\* every md and with hf; for RPMany every single site with the handler in the caller and below a second built-in, two
-\* sites at every placement, two mixed pairs, every md and hf once; n = 1 for every single site.
+\* every md and with hf; for RPMany every single site with the handler in the caller, one callback site at every placement,
+\* an accessor site below a second built-in, a mixed pair, every md and hf once; n = 1 for every single site.
 RPThoroughSel(c) == ~RPLong(c) \/ (c.md = "none" /\ ~c.hf) \/ c.sa = c.sb
 RPQuickSel(c) ==
   LET plainly == c.md = "none" /\ ~c.hf  single == c.sa = c.sb IN
@@ -304,15 +304,16 @@ RPQuickSel(c) ==
   \/ (c.n = 4 /\ single /\ c.h = "caller" /\ (c.md = "none" \/ ~c.hf))
   \/ (c.n = 4 /\ single /\ c.h \in {"native", "under"} /\ c.md = "none")
   \/ (c.n = 1 /\ single /\ c.h = "caller" /\ plainly)
-  \/ (RPLong(c) /\ single /\ c.h \in {"caller", "native"} /\ plainly)
-  \/ (RPLong(c) /\ single /\ c.sa \in {"cbthrow", "getter"} /\ plainly)
-  \/ (RPLong(c) /\ <<c.sa, c.sb>> \in {<<"plain", "cbthrow">>, <<"getter", "sortcmp">>} /\ c.h = "caller" /\ plainly)
+  \/ (RPLong(c) /\ single /\ c.h = "caller" /\ plainly)
+  \/ (RPLong(c) /\ single /\ c.sa = "cbthrow" /\ plainly)
+  \/ (RPLong(c) /\ single /\ c.sa = "getter" /\ c.h = "native" /\ plainly)
+  \/ (RPLong(c) /\ c.sa = "plain" /\ c.sb = "cbthrow" /\ c.h = "caller" /\ plainly)
   \/ (RPLong(c) /\ single /\ c.sa = "cbthrow" /\ c.h = "caller" /\ (c.md = "none" \/ ~c.hf))
 RPCases == {c \in RPAll : RPValid(c) /\ (IF Quick THEN RPQuickSel(c) ELSE RPThoroughSel(c))}
 \* law of the sub-grids (checked by TLC before anything runs): every value of every dimension occurs, every site occurs
 \* with RPMany rounds at a placement where the throw leaves a built-in, and so does every placement, md and hf
 RPGridLaw ==
-  /\ \A st \in RPSites : \E c \in RPCases : RPLong(c) /\ c.sa = st /\ c.sb = st /\ c.h \in {"caller", "native"}
+  /\ \A st \in RPSites : \E c \in RPCases : RPLong(c) /\ c.sa = st /\ c.sb = st /\ c.h = "caller"
   /\ \A st \in RPSites, s2 \in RPSites : \E c \in RPCases : {c.sa, c.sb} = {st, s2}
   /\ \A hh \in RPHandlers : \E c \in RPCases : RPLong(c) /\ c.h = hh /\ c.sa \in RPNativeSites
   /\ \A md \in RPMids : \E c \in RPCases : RPLong(c) /\ c.md = md /\ c.sa \in RPNativeSites
